@@ -951,7 +951,18 @@ func RunCheck(c *Check, tier string, seed int64) int {
 	}
 	exh := len(phases) > 0
 	var phaseInfo []map[string]interface{}
+	// VERIF_PHASES=a,b restricts a run to the named phases (a development aid:
+	// the registered commands never set it; the coverage floor still applies).
+	only := map[string]bool{}
+	for _, n := range strings.Split(os.Getenv("VERIF_PHASES"), ",") {
+		if n != "" {
+			only[n] = true
+		}
+	}
 	for _, ph := range phases {
+		if len(only) > 0 && !only[ph.Name] {
+			continue
+		}
 		t0 := time.Now()
 		runPhase(c, ph, tier, seed, a, scratch)
 		if !ph.Exhaustive {
